@@ -627,7 +627,7 @@ def gen_minimality_history(rnd, sid, feat=None):
         elif r < 0.6:
             sname = rnd.choice(sorted(h.sources)); h.edit(sname, 'common' if rnd.random() < 0.1 else 'm.%d' % rnd.randrange(1000000)); ch = ('source', sname)
         elif r < 0.75 and ne:
-            e = rnd.choice(ne); o = rnd.choice(e.outs); h.add(Step('rm', 'step rm %s' % hx(o), path=o)); ch = ('edge', e.idx)
+            e = rnd.choice(ne); o = rnd.choice(e.outs); h.add(Step('rm', 'step rm %s' % hx(o), path=o)); ch = ('edge', e.idx, o)
         elif r < 0.9 and ne:
             e = rnd.choice(ne); e.ver += 1; h.rewrite_manifest(); ch = ('cmd', e.idx)
         else:
@@ -649,13 +649,13 @@ def expected_after_change(st, prev_st):
     elif ch[0] == 'cmd':
         e = [x for x in g.edges if x.idx == ch[1]][0]
         if not e.generator: seeds.add(e.idx)
-    ran = {}; rew = {}
+    ran = {}; rew = {}   # rew: node -> it was (re)written by this build
     def through(i, depth=0):
-        """producers whose rewriting a reader of node i notices (phony names that are no files are looked through)"""
+        """the file nodes whose rewriting a reader of node i notices (phony names that are no files are looked through)"""
         p = prod.get(i)
         if p is None: return []
         if p.phony and depth < 50: return [x for j in p.exp + p.imp for x in through(j, depth + 1)]
-        return [p]
+        return [i]
     order = []; seen = set()
     def topo(e):
         if e.idx in seen: return
@@ -675,11 +675,12 @@ def expected_after_change(st, prev_st):
         return any(thr(i) for i in e.exp + g.eff_imp(e) + e.hidden)
     for e in order:
         if e.phony: continue
-        r = e.idx in seeds or reads_changed_source(e) or any(rew.get(p.idx, False) for i in e.exp + g.eff_imp(e) + e.hidden for p in through(i) if p is not e)
+        r = e.idx in seeds or reads_changed_source(e) or any(rew.get(n, False) for i in e.exp + g.eff_imp(e) + e.hidden for n in through(i) if prod.get(n) is not e)
         ran[e.idx] = r
         if r:
             res.add(e.out0)
-            rew[e.idx] = (not g.eff_restat(e)) or any(old.get(o) != new.get(o) for o in g.eff_outs(e)) or (ch[0] == 'edge' and ch[1] == e.idx)
+            for o in g.eff_outs(e):
+                rew[o] = (not g.eff_restat(e)) or old.get(o) != new.get(o) or (ch[0] == 'edge' and ch[2] == o)
     return res
 
 def oracle_c03(h, st, b, prev):
